@@ -206,6 +206,31 @@ func checkC20(c *Check) {
 		c.Cond(nW >= 1, "8/limits-stay", cg+"."+cp.Name()+":writes", p.Pos(cp.Pos()), "bootstrap write found", "no write found in the cpuset bootstrap")
 	}
 	c.Expect("8/limits-stay", 2)
+
+	// ---------- 9: control files are read to their end ----------
+	// cgroup.procs of a large group, cpu.stat, memory.stat are longer than one read returns; what is parsed must be
+	// the whole file (os.ReadFile / io.ReadAll), never the result of a single read call
+	nWhole, single, singlePos := 0, "", ""
+	for _, fn := range p.PkgFuncs("pkg/cgroup") {
+		for _, f := range withClosures(fn) {
+			for _, ci := range callInstrs(f) {
+				switch n, _ := calleeOf(ci); n {
+				case "os.ReadFile", "io.ReadAll":
+					nWhole++
+				case "(os.File).Read", "(os.File).ReadAt", "syscall.Read", "golang.org/x/sys/unix.Read", "syscall.Pread", "golang.org/x/sys/unix.Pread":
+					if single == "" {
+						single, singlePos = n+" in "+shortName(f), p.Pos(ci.Pos())
+					}
+				}
+			}
+		}
+	}
+	if singlePos == "" {
+		singlePos = cg + "/"
+	}
+	c.Cond(single == "" && nWhole >= 1, "9/files-read-whole", cg+":control-file-reads", singlePos, fmt.Sprintf("all %d control-file reads read to end of file", nWhole),
+		"a control file is read with a single "+single+": a list or table longer than one read returns (cgroup.procs of a group with many processes) is silently cut short — Processes() misses members and Nest() leaves them in the outer group")
+	c.Expect("9/files-read-whole", 1)
 }
 
 func blockIsErrBranch(b *ssa.BasicBlock) bool {
